@@ -1,5 +1,7 @@
 import AmVerif.Model.Types
 import AmVerif.Model.MemSource
+import AmVerif.Model.Reload
+import AmVerif.Gen.Skel
 import Driver.Util
 /-! Engine `cache`: the op vocabulary of `harness/src/exec_world.rs` on the model. -/
 namespace Driver.Cache
@@ -12,6 +14,8 @@ structure St where
   /-- addresses in order of first appearance in an output line -/
   handles : List Nat := []
   loaderFaults : List (Nat × Bool) := []
+  r : RSt := {}
+  watchers : List (String × Key × Nat) := []
   deriving Repr
 
 def env (s : St) : Env :=
@@ -61,6 +65,15 @@ def dumpLine (s : St) : String :=
   let ents := s.w.map.map fun (k, c) => ((nameOfTy k.ty, k.id), s!"{nameOfTy k.ty}/{hexString k.id}={canonVal c.val}@{c.rid}")
   let sorted := sortBy (fun a b => pairLt a.1 b.1) ents
   "dump " ++ " ".intercalate (sorted.map (·.2))
+
+def parseEvents : List String → Option (List Dep)
+  | [] => some []
+  | e :: rest => do
+    let r ← parseEvents rest
+    match e.splitOn ":" with
+    | ["f", id, ext] => do let i ← unhexStr id; let x ← unhexStr ext; pure (Dep.file i x :: r)
+    | ["d", id] => do let i ← unhexStr id; pure (Dep.dir i :: r)
+    | _ => none
 
 def runOp (s : St) (op : Op) : St × Res :=
   let (w, r) := step (env s) fuelDefault s.w op
@@ -125,16 +138,63 @@ def step (s : St) : List String → St × String
     | some k => let (s, r) := runOp s (.contains k); showRes s r
     | none => (s, "bad-op")
   | ["remove", ty, id] => match keyOf ty id with
-    | some k => let (s, r) := runOp s (.remove k); showRes s r
+    | some k => let (s, r) := runOp { s with watchers := [] } (.remove k); showRes s r
     | none => (s, "bad-op")
   | ["take", ty, id] => match keyOf ty id with
     | some k =>
-        let (s, r) := runOp s (.take k)
+        let (s, r) := runOp { s with watchers := [] } (.take k)
         let (s, o) := showRes s r
         (s, match r with | .value .. => "some " ++ o | _ => o)
     | none => (s, "bad-op")
-  | ["clear"] => let (s, r) := runOp s .clear; showRes s r
+  | ["clear"] => let (s, r) := runOp { s with watchers := [] } .clear; showRes s r
   | ["dump"] => (s, dumpLine s)
+  | ["view", t, r, id] =>
+    -- C13: the entry stored as `t` viewed as `r` (downcast_ref / is / guard downcast all agree)
+    match keyOf t id, tyOfName r with
+    | some k, some rt =>
+      (s, match s.w.lookup k with
+          | none => "absent"
+          | some _ => let b := showBool (k.ty == rt); s!"ref={b} is={b} guard={b}")
+    | _, _ => (s, "bad-op")
+  | "notify" :: evs =>
+    match parseEvents evs with
+    | none => (s, "bad-op")
+    | some ds =>
+      if !s.hasReloader then (s, "no-reloader") else
+      let (w, r) := handleEvents (env s) fuelDefault s.w s.r ds
+      ({ s with w, r }, "ok")
+  | ["reload"] =>
+    if !s.hasReloader then (s, "ok") else
+    let (w, r) := hotReload (env s) fuelDefault s.w s.r
+    ({ s with w, r }, if r.dead then "reloader-dead" else "ok")
+  | ["enhance"] =>
+    if !s.hasReloader then (s, "ok") else
+    let (w, r) := enhance (env s) fuelDefault s.w s.r
+    ({ s with w, r }, if r.dead then "reloader-dead" else "ok")
+  | ["rid", ty, id] => match keyOf ty id with
+    | some k => (s, match s.w.lookup k with | some c => toString c.rid | none => "none")
+    | none => (s, "bad-op")
+  | ["global", ty, id] => match keyOf ty id with
+    | some k => match s.w.lookup k with
+      | some c => ({ s with w := s.w.setCell k { c with flag := false } }, showBool (c.dyn && c.flag))
+      | none => (s, "none")
+    | none => (s, "bad-op")
+  | ["rw.new", name, ty, id] => match keyOf ty id with
+    | some k => match s.w.lookup k with
+      | some c => ({ s with watchers := (s.watchers.filter (·.1 ≠ name)) ++ [(name, k, c.rid)] }, "ok")
+      | none => (s, "none")
+    | none => (s, "bad-op")
+  | ["rw.poll", name] =>
+    match s.watchers.find? (·.1 = name) with
+    | none => (s, "none")
+    | some (_, k, last) =>
+      match s.w.lookup k with
+      | none => (s, "none")
+      | some c =>
+        -- static entries have no reload id to watch: `reloaded()` is always false
+        if !c.dyn then (s, "false") else
+        let (last', told) := ReloadId_update last c.rid
+        ({ s with watchers := s.watchers.map fun w => if w.1 = name then (name, k, last') else w }, showBool told)
   | _ => (s, "bad-op")
 
 end Driver.Cache
